@@ -166,6 +166,16 @@ func (c17) Run(c *Ctx, csAny any) Outcome {
 			cfg2.FailFile, _ = filepath.Abs(path)
 		}
 	}
+	// which files are unusable by the documented format alone (unreadable, malformed, other version)? Decided
+	// by the harness' own parser, independently of the library.
+	malformed := map[string]bool{}
+	for _, f := range AllFiles() {
+		v, _, _, err := ParseFailFile(f)
+		if err != nil || v != version {
+			abs, _ := filepath.Abs(f)
+			malformed[abs] = true
+		}
+	}
 	nfiles := len(cs.Files)
 	if cs.ViaFlag {
 		nfiles++ // the flagged file is looked at twice: through the flag and through discovery
@@ -180,6 +190,10 @@ func (c17) Run(c *Ctx, csAny any) Outcome {
 	}
 	if r.Rep.FailFile != "" && r.Obs.Failed {
 		// the failure is attributed to a fail file
+		if abs, _ := filepath.Abs(r.Rep.FailFile); malformed[abs] {
+			out.Viol = violf("C17:malformed-file-used", "files %s: the test failed from %q, which is not a well-formed fail file of this version", kinds(cs.Files), r.Rep.FailFile)
+			return out
+		}
 		if r.FirstBad >= 0 && r.FirstBad < nfiles {
 			// a file that happens to encode a genuine counterexample is a usable fail file
 			out.Classes = append(out.Classes, "file-is-a-counterexample")
@@ -190,6 +204,14 @@ func (c17) Run(c *Ctx, csAny any) Outcome {
 		return out
 	}
 	nrep := len(r.X.Log) - len(ref.X.Log)
+	usable := nfiles - len(malformed)
+	if cs.ViaFlag && malformed[cfg2.FailFile] {
+		usable-- // counted twice in nfiles
+	}
+	if nrep > usable && nrep <= nfiles {
+		out.Viol = violf("C17:malformed-file-used", "files %s: %d test cases were replayed from fail files, but only %d files are well-formed fail files of this version", kinds(cs.Files), nrep, usable)
+		return out
+	}
 	if nrep < 0 || nrep > nfiles {
 		out.Viol = violf("C17:changes-the-run", "files %s: %d invocations with the files, %d in an empty directory (at most %d replays possible)", kinds(cs.Files), len(r.X.Log), len(ref.X.Log), nfiles)
 		return out
